@@ -142,7 +142,10 @@ func (w *World) judgeC09(o *parseOutcome) (map[string]string, string, c09Flags) 
 	var fl c09Flags
 	switch o.Verdict.Kind {
 	case "budget":
-		return map[string]string{"class": "tick-budget", "innermost_fn": hrt.SiteFn(o.Verdict.Site)},
+		// the signature does not name the innermost function: an endless
+		// recovery loop spans parse, _recover, the actions and the lexer seam,
+		// and where the budget runs out is arbitrary
+		return map[string]string{"class": "tick-budget", "where": "parse"},
 			fmt.Sprintf("parse did not return within %d ticks (last site %s)", o.Verdict.Ticks, o.Verdict.Site), fl
 	case "panic":
 		return map[string]string{"class": "panic", "fn": o.Verdict.Site, "msg": reNum.ReplaceAllString(o.Verdict.Detail, "N")},
@@ -169,7 +172,13 @@ func (w *World) judgeC09(o *parseOutcome) (map[string]string, string, c09Flags) 
 		if o.Ret && len(o.Rec.Errors) == 0 {
 			return map[string]string{"class": "silent-accept"}, "parse returned true on a non-sentence without delivering any Error", fl
 		}
-		if len(o.Rec.Errors) > 0 {
+		// The statement is a disjunction: parse() returns false, OR it delivers
+		// an Error and the first one carries the first offending token. When
+		// parse() gives up, Error symbols still on the stack were never reduced
+		// and cannot have been delivered (e.g. `do [ do + >` then EOF: the inner
+		// block's Error is delivered, the outer block never completes), so the
+		// blame clause is judged on parses that returned true.
+		if len(o.Rec.Errors) > 0 && o.Ret {
 			i := earley.FirstNonViable(w.GE, ids)
 			fl.FirstBadIndex = i
 			want := i + 1
@@ -521,7 +530,7 @@ func (w *World) replayDoc(run *C09Run) any {
 
 // tooManyHangs: once a shard has seen this many budget verdicts the violation is
 // established; exploring further would only burn the budget again and again.
-func tooManyHangs(res *Result) bool { return res.Stats["budget_verdicts"] >= 150 }
+func tooManyHangs(res *Result) bool { return res.Stats["budget_verdicts"] >= 25 }
 
 func (w *World) oneC09(run *C09Run, res *Result, faultFree bool) {
 	if tooManyHangs(res) {
